@@ -37,6 +37,10 @@ Proof. vm_compute. reflexivity. Qed.
 Example C17_median_example : Qeq_bool (median [3; 9; 1; 7; 5]%Q) 5 = true.
 Proof. vm_compute. reflexivity. Qed.
 
+(* the integrated intensity depends on the set of band pixels only, not on their order nor on how often the walk produced a pixel *)
+Theorem C17_integrated_depends_on_the_pixel_set : forall img band band' len, (forall p, In p band <-> In p band') ->
+  (integrated img band len == integrated img band' len)%Q.
+Proof. exact integrated_depends_on_the_pixel_set. Qed.
 (* ---- the layered band around the interface polyline (myosin.py get_interpolation / walk_two_vertices, Model/Band.v) *)
 (* one walk position per integer step along the axis of larger extent ... *)
 Theorem C17_walk_positions_count : forall interp v0 v1,
@@ -82,3 +86,4 @@ Print Assumptions C17_walk_band_spec.
 Print Assumptions C17_polyline_band_spec.
 Print Assumptions C17_degenerate_segment_empty.
 Print Assumptions C17_first_vertex_window_in_band.
+Print Assumptions C17_integrated_depends_on_the_pixel_set.
